@@ -1,0 +1,26 @@
+//go:build verif
+
+package proxy
+
+import (
+	"net"
+
+	"github.com/fatedier/frp/pkg/msg"
+)
+
+// VerifC08XTCPListen runs the owner side of an established xtcp tunnel: the real
+// XTCPProxy.listenByKCP / listenByQUIC (what runs once the hole is punched) on listenConn,
+// serving the visitor at raddr.  p must come from NewProxy with an XTCPProxyConfig.
+// It blocks until the tunnel ends; ok is false when p is not an xtcp proxy.
+func VerifC08XTCPListen(p Proxy, protocol string, listenConn *net.UDPConn, raddr *net.UDPAddr, m *msg.StartWorkConn) (ok bool) {
+	pxy, isX := p.(*XTCPProxy)
+	if !isX {
+		return false
+	}
+	if protocol == "kcp" {
+		pxy.listenByKCP(listenConn, raddr, m)
+	} else {
+		pxy.listenByQUIC(listenConn, raddr, m)
+	}
+	return true
+}
